@@ -101,8 +101,9 @@ def run_adaptive(params, known):
     count = 0
     samples = []
     nacks = 6 if params.get('thorough') else 4
-    for (mru, init, target) in ((20000, 5000, 1), (12000, 20000, 1), (64000, 11000, 2)):
-        for delays in itertools.product((1, 10 ** 7), repeat=nacks):
+    # peer MRUs above and *below* the controller's internal floor of 10240 octets
+    for (mru, init, target) in ((20000, 5000, 1), (12000, 20000, 1), (64000, 11000, 2), (4096, 4096, 1), (10239, 3000, 1)):
+        for (delays, late_second) in itertools.product(itertools.product((1, 10 ** 7), repeat=nacks), (False, True)):
             count += 1
             size = 24000
             prm = dict(scripts={'A': [('send', 'ab' * size), ('send', 'cd' * size)], 'B': []},
@@ -122,8 +123,10 @@ def run_adaptive(params, known):
                 steps += 1
                 evs = w.enabled_events()
                 user = [e for e in evs if e[0] == 'user']
-                if user and queued < 2 and w.monitors and any(True for _ in [0]):
-                    # queue both bundles as soon as the session is established
+                if user and queued < 2 and (queued == 0 or not late_second or acks >= 2):
+                    # queue the first bundle as soon as the session is established; the second
+                    # either at once (pipelined) or only after acknowledgements have already
+                    # moved the controller (its segments are then cut with the adapted size)
                     if w.handler('A').get_session_state() == 'established':
                         (vs, _e) = w.apply(user[0])
                         found.extend(vs)
@@ -133,7 +136,7 @@ def run_adaptive(params, known):
                 if not runs:
                     break
                 pick = runs[0]
-                if pick[1] == 'A' and w.conns[0].buf[0]:
+                if pick[1] == 'A' and w.conns[0].buf[0] and wire.used_ids[0]:
                     # acknowledgements are waiting for A: let the chosen delay pass first
                     delay = delays[min(acks, nacks - 1)]
                     acks += 1
@@ -145,10 +148,10 @@ def run_adaptive(params, known):
                     break
             found.extend(w.check_final() if not found else [])
             if len(samples) < 2:
-                samples.append(dict(mru=mru, init=init, delays=list(delays), steps=steps))
+                samples.append(dict(mru=mru, init=init, delays=list(delays), late_second=late_second, steps=steps))
             for viol in found[:1]:
                 v = viol.as_dict()
-                v['case'] = dict(mru=mru, init=init, target=target, delays=list(delays))
+                v['case'] = dict(mru=mru, init=init, target=target, delays=list(delays), late_second=late_second)
                 violations.append(v)
         if violations:
             break
